@@ -73,6 +73,9 @@ def with_key_distribution(data):
     return m.SerializeToString()
 
 
+TEXTS = [None, "", " ", "0", "line one\nline two", u"gr\u00fc\u00dfe \u20ac", "False"]      # descriptor field "text": index into this list (None = the default body)
+
+
 def payload_bytes(kind, rng=None, text=None, pseed=None):
     """protobuf payload of a message without mediatype"""
     from yowsup.layers.protocol_messages.proto.e2e_pb2 import Message
@@ -80,9 +83,9 @@ def payload_bytes(kind, rng=None, text=None, pseed=None):
         return unpresentable_payload(pseed)[0]
     m = Message()
     if kind == "conversation":
-        m.conversation = text or "hello there"
+        m.conversation = "hello there" if text is None else text
     elif kind == "extendedText":
-        m.extended_text_message.text = text or "see https://example.org"
+        m.extended_text_message.text = "see https://example.org" if text is None else text
         m.extended_text_message.matched_text = "https://example.org"
     elif kind == "keyDistributionOnly":
         m.sender_key_distribution_message.group_id = GJID
@@ -262,7 +265,7 @@ def build_stanza(d, seq=1):
                 # the envelope's media type says nothing about the payload: a key distribution on its own travels under any of them
                 data = payload_bytes("keyDistributionOnly") if d.get("payload") == "keyDistributionOnly" else media_payload(media)
             else:
-                data = payload_bytes(d.get("payload", "other"), pseed=d.get("pseed"))
+                data = payload_bytes(d.get("payload", "other"), pseed=d.get("pseed"), text=TEXTS[d.get("text", 0)])
             if d.get("skdm") and d.get("payload") != "keyDistributionOnly":
                 data = with_key_distribution(data)
             kids.append(N("proto", pattrs, None, data))
